@@ -33,6 +33,123 @@ def known_constants():
         return set(json.load(f).get('constants', []))
 
 
+def known_table():
+    with open(_TABLE) as f:
+        return json.load(f)
+
+
+def function_refs(prog, names):
+    """per function: the identifiers it mentions (attribute names and plain names) that are in `names`"""
+    out = {}
+    for q, fi in prog.functions.items():
+        r = set()
+        for x in ast.walk(fi.node):
+            if isinstance(x, ast.Attribute) and x.attr in names:
+                r.add(x.attr)
+            elif isinstance(x, ast.Name) and x.id in names:
+                r.add(x.id)
+        out[q] = r
+    return out
+
+
+def _kind(fi):
+    return ('classmethod' if fi.is_classmethod else 'staticmethod' if fi.is_staticmethod else 'property' if fi.is_property
+            else 'method' if fi.cls is not None else 'function')
+
+
+def _jacc(a, b):
+    if not a and not b:
+        return 1.0
+    return len(a & b) / float(len(a | b))
+
+
+def recover_renames(prog, table):
+    """A function of the reference tree that is gone while a function the reference tree does not have sits in the same
+    class/module, has the same kind and arity, is mentioned by the same functions and mentions the same functions: the same
+    function under a new name.  The new name is mapped back to the reference name everywhere (definition, attribute and name
+    references), so the rules - which are anchored in the reference names - find it.  Only an unambiguous best match is
+    taken; anything else is left alone (the rules then report the vanished anchor as an analysis error, exit 2).
+    Names are not semantics: whatever is matched is still analysed by its body."""
+    known = set(table['functions'])
+    sigs, krefs, kinds = table.get('signatures', {}), table.get('refs', {}), table.get('kinds', {})
+    if not krefs or not kinds:
+        return []
+    missing = [q for q in sorted(known) if q not in prog.functions and q.rsplit('.', 1)[0] in
+               set(list(prog.classes) + list(prog.modules))]
+    new = [q for q in sorted(prog.functions) if q not in known and not (q.rsplit('.', 1)[1].startswith('__'))]
+    if not missing or not new:
+        return []
+    defined = {}
+    for q in prog.functions:
+        defined.setdefault(q.rsplit('.', 1)[1], []).append(q)
+    mentioned_attr = set()
+    for m in prog.modules.values():
+        for x in ast.walk(m.tree):
+            if isinstance(x, ast.Attribute):
+                mentioned_attr.add(x.attr)
+            elif isinstance(x, ast.Name):
+                mentioned_attr.add(x.id)
+    names_now = {q.rsplit('.', 1)[1] for q in prog.functions}
+    names_ref = {q.rsplit('.', 1)[1] for q in known}
+    refs_now = function_refs(prog, names_now | names_ref)
+    # who mentions whom, by last name component, in both trees
+    def mentioners(refs, name, exclude):
+        return {q for q, r in refs.items() if name in r and q != exclude}
+    pairs = []
+    for mq in missing:
+        holder, mname = mq.rsplit('.', 1)
+        if mname in mentioned_attr or mname in defined:
+            continue        # the reference name is still in use for something: not a plain rename
+        msig = sigs.get(mq)
+        for nq in new:
+            nh, nname = nq.rsplit('.', 1)
+            if nh != holder or len(defined.get(nname, ())) != 1 or nname in names_ref:
+                continue
+            fi = prog.functions[nq]
+            if not isinstance(fi.node, ast.FunctionDef) or _kind(fi) != kinds.get(mq):
+                continue
+            if msig is not None:
+                k = msig.index('*')
+                if len(fi.params) != k or len(fi.kwonly) != len(msig) - k - 1:
+                    continue
+            callers_ref = {q for q in mentioners(krefs_sets(krefs), mname, mq)}
+            callers_now = {q for q in mentioners(refs_now, nname, nq)}
+            callees_ref = set(krefs.get(mq, ())) - {mname}
+            callees_now = {n for n in refs_now.get(nq, ()) if n in names_ref} - {nname}
+            score = _jacc(callers_ref, callers_now) + _jacc(callees_ref, callees_now)
+            pairs.append((score, mq, nq))
+    pairs.sort(reverse=True)
+    done_m, done_n, out = set(), set(), []
+    for i, (score, mq, nq) in enumerate(pairs):
+        if mq in done_m or nq in done_n:
+            continue
+        rivals = [s2 for s2, m2, n2 in pairs if (m2 == mq) != (n2 == nq) and m2 not in done_m and n2 not in done_n]
+        if score < 1.2 or (rivals and max(rivals) > score - 0.3):
+            continue
+        done_m.add(mq)
+        done_n.add(nq)
+        out.append({'reference_name': mq, 'found_as': nq, 'score': round(score, 2)})
+    for r in out:
+        old, newn = r['reference_name'].rsplit('.', 1)[1], r['found_as'].rsplit('.', 1)[1]
+        for m in prog.modules.values():
+            for x in ast.walk(m.tree):
+                if isinstance(x, ast.Attribute) and x.attr == newn:
+                    x.attr = old
+                elif isinstance(x, ast.Name) and x.id == newn:
+                    x.id = old
+                elif isinstance(x, (ast.FunctionDef, ast.AsyncFunctionDef)) and x.name == newn:
+                    x.name = old
+    return out
+
+
+def krefs_sets(krefs, _cache={}):
+    k = id(krefs)
+    if k not in _cache:
+        _cache.clear()
+        _cache[k] = {q: set(v) for q, v in krefs.items()}
+    return _cache[k]
+
+
 class Unsupported(Exception):
     pass
 
@@ -874,6 +991,9 @@ class Inliner:
     # ---- driver
     def run(self):
         prog = self.prog
+        self.report['recovered_renames'] = recover_renames(prog, known_table())
+        if self.report['recovered_renames']:
+            prog.reindex()
         self.report['inlined_constants'] = inline_new_constants(prog, known_constants())
         if self.report['inlined_constants']:
             prog.reindex()
